@@ -161,3 +161,17 @@ Definition chk_ranges_complete (T : tables) : bool :=
                        | None => true
                        end
                      else true) (lic_ids T).
+
+(* C11 through the API, over the shipped table (finite): for every two entries of one row, written as the ids
+   themselves, Satisfies(b, [a+]) and Satisfies(a+, [b]) are exactly "b's natural version is the same or later" *)
+Definition bool_res_eqb (r : res bool) (b : bool) : bool := match r with Ok x => Bool.eqb x b | _ => false end.
+Definition chk_plus_api (T : tables) : bool :=
+  forallb (fun row =>
+    let ids := concat row in
+    forallb (fun a => forallb (fun b =>
+      match decompose a, decompose b with
+      | Some (_, va), Some (_, vb) =>
+          let want := ver_leb va vb in
+          if bool_res_eqb (satisfies T b [a ++ ["+"%char]]) want then bool_res_eqb (satisfies T (a ++ ["+"%char]) [b]) want else false
+      | _, _ => false
+      end) ids) ids) (rngs T).
